@@ -13,7 +13,9 @@ STRS = ["", "a", "abc", "héllo wörld", "日本語", "quote\"back\\slash", "lin
         "{\"json\": [1,2]}", " ", "null", "true", "0", " é\u0000x", "emoji \U0001F600",
         "a" * 40, "#:/@=+-._", "lone \ud800 surrogate",
         # text that is not in a Unicode normalisation form: decomposed accent, Angstrom / Ohm signs, conjoining jamo
-        "de\u0301compose\u0301", "\u212b \u2126", "\u1112\u1161\u11ab"]
+        "de\u0301compose\u0301", "\u212b \u2126", "\u1112\u1161\u11ab",
+        # a backslash among plain characters, next to the text that JSON would write with that escape
+        "C:\\new", "C:\new", "caf\\u00e9", "caf\u00e9", "tab\\there"]
 INTS = [0, 1, -1, 2, 7, 255, -256, 2**31, -(2**31) - 1, 2**63, 2**64 + 1, 10**30, -(10**25)]
 FLOATS = [0.0, -0.0, 1.0, -1.5, 0.1, 1e-310, 5e-324, 1e308, -1e308, float("inf"),
           float("-inf"), float("nan"), 3.141592653589793, 1e16, 123456.789]
